@@ -486,7 +486,9 @@ where
         #[cfg(delaunay_verif)]
         {
             crate::verif::tick::tick("locate.walk");
-            if step >= crate::verif::knob::get("locate.max_steps", MAX_STEPS) {
+            if crate::verif::knob::is_set("locate.max_steps")
+                && step >= crate::verif::knob::get("locate.max_steps", MAX_STEPS)
+            {
                 break;
             }
         }
